@@ -65,6 +65,27 @@ static const TSLanguage *dump(const char *id, const char *so, const char *fn, un
   printf("ac");
   for (unsigned i = 0; i <= max_action; i++) printf(" %u", (unsigned)l->parse_actions[i].entry.count);
   printf("\n");
+  // the action list behind every index (as ts_language_table_entry hands it to the parser), and the lex modes
+  for (unsigned i = 0; i <= max_action;) {
+    unsigned c = l->parse_actions[i].entry.count;
+    printf("pa %u", i);
+    for (unsigned j = 1; j <= c; j++) {
+      TSParseAction a = l->parse_actions[i + j].action;
+      switch (a.type) {
+        case TSParseActionTypeShift: printf(" S,%u,%d,%d", (unsigned)a.shift.state, a.shift.extra ? 1 : 0, a.shift.repetition ? 1 : 0); break;
+        case TSParseActionTypeReduce: printf(" R,%u,%u,%d,%u", (unsigned)a.reduce.symbol, (unsigned)a.reduce.child_count,
+                                             (int)a.reduce.dynamic_precedence, (unsigned)a.reduce.production_id); break;
+        case TSParseActionTypeAccept: printf(" A"); break;
+        case TSParseActionTypeRecover: printf(" V"); break;
+        default: printf(" ?%u", (unsigned)a.type); break;
+      }
+    }
+    printf("\n");
+    i += c + 1;
+  }
+  printf("lm");
+  for (unsigned s = 0; s < l->state_count; s++) printf(" %u", (unsigned)l->lex_modes[s].lex_state);
+  printf("\n");
   // every reduce action: symbol, child count, and the production's own (not inherited) fields and aliases by child index
   for (unsigned i = 0; i <= max_action;) {
     unsigned c = l->parse_actions[i].entry.count;
